@@ -228,6 +228,7 @@ func runC05(ctx *h.Ctx) int {
 		}
 		k.Sample("pair", map[string]interface{}{"source": pr.Src})
 	})
+	rejectGuard(ctx, 0.35)
 	return ctx.Finish(
 		"whole files compiled twice (optimize on/off). Oracle: same acceptance/error; non-script parts identical; same user-visible labels with the same colon count; per script the multiset of instructions other than goto is identical; VM traces (tests, commands, terminal) from every script entry incl. inline map scripts equal under the same states; in either output no generated goto is followed by its own target label and every generated sub-label is referenced. distinct = distinct script body signature",
 		ctx.N(500, 5000),
